@@ -264,6 +264,7 @@ where
     F: Fn(&S::Value, &mut Acc) -> Check + Sync,
 {
     let per = (total + SHARDS - 1) / SHARDS;
+    let t0 = std::time::Instant::now();
     let accs: Vec<Acc> = (0..SHARDS)
         .into_par_iter()
         .map(|shard| proptest_shard(cx, phase, shard, per, &strat, &f))
@@ -274,7 +275,7 @@ where
         n += a.evals;
         acc.merge(a);
     }
-    acc.phase_info(phase, n, false, "proptest (random, shrinking)");
+    acc.phase_info(phase, n, false, &format!("proptest (random, shrinking), {:.1} s", t0.elapsed().as_secs_f64()));
     acc
 }
 
@@ -362,6 +363,7 @@ pub fn par_units<U: Sync, F>(cx: &Cx, phase: &str, units: &[U], exhaustive: bool
 where
     F: Fn(&Cx, &U, &mut Acc) + Sync,
 {
+    let t0 = std::time::Instant::now();
     let accs: Vec<Acc> = units
         .par_iter()
         .map(|u| {
@@ -376,7 +378,7 @@ where
         n += a.evals;
         acc.merge(a);
     }
-    acc.phase_info(phase, n, exhaustive, desc);
+    acc.phase_info(phase, n, exhaustive, &format!("{desc}, {:.1} s", t0.elapsed().as_secs_f64()));
     acc
 }
 
